@@ -149,14 +149,22 @@ def sensitivity(args):
         if not props:
             print(f"{p}: no property recorded, skipped")
             continue
-        res = run_against_patch(p, props, seed=args.seed)
+        name = p.parent.name if p.name == "patch.diff" else p.stem
+        try:
+            res = run_against_patch(p, props, seed=args.seed)
+        except RuntimeError as exc:
+            if meta.get("obsolete_after_fix"):
+                print(f"OBSOLETE {name}: the change no longer applies to the repaired tree (fix {meta['obsolete_after_fix']})")
+            else:
+                missed += 1
+                print(f"NOT-APPLICABLE {name}: {str(exc)[:200]}")
+            continue
         caught = [k for k, v in res.items() if v["rc"] == 1]
         status = "CAUGHT" if caught else "MISSED"
         if not caught and meta.get("equivalent"):
             status = "MISSED-AS-EXPECTED (equivalent: " + meta["equivalent"][:80] + ")"
         elif not caught:
             missed += 1
-        name = p.parent.name if p.name == "patch.diff" else p.stem
         print(f"{status} {name}: " + "; ".join(f"{k} rc={v['rc']} {v['wall']}s" for k, v in res.items()))
         for k, v in res.items():
             for ln in v["lines"][:2]:
